@@ -73,6 +73,10 @@ def judge(res, H, oracle_ids, scn, kind='solve', extra=None):
     for nm in ('c09_maxratio', 'c12_max', 'c13_norm_excess', 'c14_dir_ratio', 'c14_cond'):
         if hasattr(H, nm):
             res['stats'][nm + '.max'] = max(res['stats'].get(nm + '.max', -1e300), float(getattr(H, nm)))
+    if 'c16.fits_checked' in H.insitu_counts:
+        from . import model_machine as _MM
+        for k_, v_ in _MM.MARGINS.items():
+            res['stats'][k_ + '.insitu.err_over_tol.max'] = max(res['stats'].get(k_ + '.insitu.err_over_tol.max', 0.0), v_)
     if getattr(H, 'dyk_stats', None):
         for k_, v_ in H.dyk_stats.items():
             if k_ in ('maxratio', 'maxerr'):
